@@ -783,11 +783,18 @@ def run(ctx: Ctx) -> None:
     ctx.rule('R15.5', 'sector counts use the codespace mask and the [X|Z] effect layout', floor=5)
     ctx.rule('R15.6', 'all containers end in read_entry; merged lists are flattened', floor=5)
     ctx.trust('pandas groupby/sum/aggregate/first semantics; sympy simplification (python3-vt)')
-    _r151_152(ctx)
-    _r153(ctx)
-    _r154(ctx)
-    _r155(ctx)
-    _r156(ctx)
-    _r157(ctx)
+    with ctx.part():
+        _r151_152(ctx)
+    with ctx.part():
+        _r153(ctx)
+    with ctx.part():
+        _r154(ctx)
+    with ctx.part():
+        _r155(ctx)
+    with ctx.part():
+        _r156(ctx)
+    with ctx.part():
+        _r157(ctx)
     from .c06 import class_mutable_rule
-    class_mutable_rule(ctx, 'R15.6', ['Analysis'])
+    with ctx.part():
+        class_mutable_rule(ctx, 'R15.6', ['Analysis'])
